@@ -742,7 +742,31 @@ class VM:
                 n = cv.concrete()
             return tuple([v] * n)
         if k == 'closure':
-            return Closure(a['name'], [self.operand(frame, o) for _, o in a['caps']], frame.env)
+            ops = [o for _, o in a['caps']]
+            # rustc's MIR pretty printer names a closure's captures after the captured VARIABLES; with Rust 2021's disjoint
+            # field captures (`self.store` and `self.opts` captured separately) there are more operands than names and the
+            # printed aggregate is truncated. The body tells how many captures there are; the missing operands are the
+            # temporaries that directly follow the printed ones (they are created consecutively for the aggregate).
+            body = self.prog.closures.get(a['name'])
+            need = 0
+            if body is not None:
+                for place in body.debug.values():
+                    for mm in re.finditer(r'\(\*_1\)\.(\d+)|\b_1\.(\d+)', place):
+                        need = max(need, int(mm.group(1) or mm.group(2)) + 1)
+            if need > len(ops):
+                from mirparse import parse_operand
+                loc = [int(o.place.local) if (o.place is not None and not o.place.proj) else None for o in ops]
+                ok = ops and all(x is not None for x in loc) and all(loc[i] == loc[0] + i for i in range(len(loc)))
+                if not ok:
+                    raise Unmodelled("closure aggregate printed with fewer captures than its body uses: " + a['name'])
+                try:
+                    ops = ops + [parse_operand("move _%d" % (loc[0] + i)) for i in range(len(ops), need)]
+                    return Closure(a['name'], [self.operand(frame, o) for o in ops], frame.env)
+                except Unmodelled:
+                    raise
+                except Exception:
+                    raise Unmodelled("closure aggregate printed with fewer captures than its body uses: " + a['name'])
+            return Closure(a['name'], [self.operand(frame, o) for o in ops], frame.env)
         if k == 'adt':
             return self.aggregate(frame, a)
         if k == 'len':
